@@ -598,7 +598,7 @@ func (d *stubDesc) driverSource() string {
 	src := body.String()
 	// encoding/json and math are imported unconditionally and kept used by blank declarations: whether the
 	// value literals need them cannot be read off the text, which also contains the interface name and
-	// string values ("interface json.RawMessage" — the mistake the generator itself made before dfa0aa0)
+	// string values ("interface json.RawMessage" — the mistake the generator itself made before 30ae85f)
 	fmt.Fprintf(&b, "package d%d\n\nimport (\n\t\"context\"\n\t\"io\"\n", d.idx)
 	b.WriteString("\t\"encoding/json\"\n")
 	b.WriteString("\t\"math\"\n")
